@@ -1,6 +1,11 @@
 mod connection;
 mod request;
 
+#[cfg(feature = "verif")]
+pub mod verif {
+    pub use super::request::{parse_request, RequestParseError};
+}
+
 use std::cell::RefCell;
 use std::net::SocketAddr;
 use std::os::unix::prelude::{FromRawFd, IntoRawFd};
